@@ -1,6 +1,8 @@
 import Chartparse.Proofs.ReTE
 import Chartparse.Proofs.IntOf
 import Chartparse.Proofs.ReNorm
+import Chartparse.Proofs.ReDisjoint
+import Chartparse.Model.Lines
 /-! Property theorems of C07 (statements only; helper lemmas live in `Proofs/`). -/
 namespace Chartparse.Props.C07
 open Chartparse Chartparse.Rx
@@ -40,5 +42,60 @@ theorem intOf_lead0 :
     ∀ (ds : Str),
     intOf (48 :: ds) = intOf ds :=
   @Chartparse.Rx.intOf_lead0
+
+/-! ### obligations: the recognisers regenerated from /repo have the normal forms of the templates above -/
+
+theorem gen_note_is_template : Gen.noteRe.norm = noteRe.norm := by decide
+theorem gen_sp_is_template : Gen.spRe.norm = spT.norm := by decide
+theorem gen_te_is_template : Gen.teRe.norm = teRe.norm := by decide
+
+/-- every index the N recogniser lets through is a member of `NoteTrackIndex`, and `is_5_note` is `value ≤ 4` -/
+theorem gen_index_table_total :
+    (List.range 8).all (fun i => Gen.noteTrackIndex.any (·.1 == i)) = true ∧
+    Gen.noteTrackIndex.all (fun e => e.2.2 == decide (e.1 ≤ 4)) = true := by decide
+
+/-! ### the same theorems for the shipped recognisers -/
+
+/-- C07: every canonical N line — any digit strings (any `\d` script), any `\s` padding — is accepted with
+    exactly its three captures -/
+theorem C07_note_accept (p t l q : Str) (i : Nat)
+    (hp : AllIn .space p) (ht : AllIn .digit t) (ht0 : t ≠ []) (hi : 48 ≤ i ∧ i ≤ 55)
+    (hl : AllIn .digit l) (hl0 : l ≠ []) (hq : AllIn .space q) :
+    Gen.noteRe.matchGroups (p ++ (t ++ ([32,61,32,78,32] ++ (i :: 32 :: (l ++ q))))) = some [(3,l),(2,[i]),(1,t)] := by
+  rw [matchGroups_of_norm_eq gen_note_is_template]; exact Chartparse.Rx.note_accept p t l q i hp ht ht0 hi hl hl0 hq
+
+/-- C07: … and nothing else is: whatever the shipped N recogniser accepts has that shape (so `N 8 …`, `S 64 …`,
+    a missing tick, a missing ` = ` are rejected) -/
+theorem C07_note_sound (s : Str) (caps : Caps) (h : Gen.noteRe.matchGroups s = some caps) :
+    ∃ p t i l q, s = p ++ (t ++ ([32,61,32,78,32] ++ (i :: 32 :: (l ++ q)))) ∧
+      AllIn .space p ∧ AllIn .digit t ∧ t ≠ [] ∧ (48 ≤ i ∧ i ≤ 55) ∧ AllIn .digit l ∧ l ≠ [] ∧ AllIn .space q ∧
+      caps = [(3, l), (2, [i]), (1, t)] := by
+  rw [matchGroups_of_norm_eq gen_note_is_template] at h; exact Chartparse.Rx.note_sound s caps h
+
+/-- C07: the decoder built on the shipped recogniser yields exactly the written integers -/
+theorem C07_note_decode (p t l q : Str) (i : Nat)
+    (hp : AllIn .space p) (ht : AllIn .digit t) (ht0 : t ≠ []) (hi : 48 ≤ i ∧ i ≤ 55)
+    (hl : AllIn .digit l) (hl0 : l ≠ []) (hq : AllIn .space q) :
+    decodeKind 0 (p ++ (t ++ ([32,61,32,78,32] ++ (i :: 32 :: (l ++ q))))) = some (.note (intOf t) (intOf [i]) (intOf l)) := by
+  simp only [decodeKind, kindRe]
+  rw [C07_note_accept p t l q i hp ht ht0 hi hl hl0 hq]
+  simp [grpD, grp]
+
+theorem C07_sp_accept (p t l q : Str) (hp : AllIn .space p) (ht : AllIn .digit t) (ht0 : t ≠ [])
+    (hl : AllIn .digit l) (hl0 : l ≠ []) (hq : AllIn .space q) :
+    Gen.spRe.matchGroups (p ++ (t ++ ([32, 61, 32, 83, 32, 50, 32] ++ (l ++ q)))) = some [(2, l), (1, t)] := by
+  rw [matchGroups_of_norm_eq gen_sp_is_template]; exact Chartparse.Rx.sp_accept p t l q hp ht ht0 hl hl0 hq
+
+theorem C07_te_accept (p t w q : Str) (hp : AllIn .space p) (ht : AllIn .digit t) (ht0 : t ≠ [])
+    (hw : ∀ c ∈ w, CSet.space.test c = false) (hq : AllIn .space q) :
+    Gen.teRe.matchGroups (p ++ (t ++ ([32, 61, 32, 69, 32] ++ (w ++ q)))) = some [(2, w), (1, t)] := by
+  rw [matchGroups_of_norm_eq gen_te_is_template]; exact Chartparse.Rx.te_accept p t w q hp ht ht0 hw hq
+
+/-- an ASCII index character decodes to its digit value: `N 0 … N 7` are the indices 0..7 -/
+theorem C07_index_value : (List.range 8).all (fun d => intOf [48 + d] == d) = true := by decide
+
+/-- non-vacuity: an N line with a tab, full-width digits and trailing blanks -/
+example : decodeKind 0 ([9] ++ ([65297, 50] ++ ([32,61,32,78,32] ++ (55 :: 32 :: ([48, 57] ++ [32, 32])))))
+    = some (.note 12 7 9) := by decide
 
 end Chartparse.Props.C07
